@@ -1,7 +1,6 @@
 """Properties not claimed, with the reason (kept in step with DESIGN.md §2)."""
 UC = "check under construction in this round (see DESIGN.md §1); not claimed until its harnesses are committed and pass on the unchanged tree"
 NOT_APPLICABLE = {
-    "C14": "range results depend on crossbeam-skiplist iteration under concurrent mutation and on whole-store value resolution; neither Kani (no threads, ICE on the store) nor an intra-procedural MIR encoding can state the property",
     "C15": "migration is file-system orchestration (temp file, hard link, identity stamps) around two whole store instances; no part of it is a bounded computation the solver engines can reach",
     "C18": "termination/deadlock freedom over threads, channels and locks: Kani does not model threads and a lock-order argument over MIR would be static analysis, not symbolic execution with a solver verdict",
 }
